@@ -51,7 +51,6 @@ Inductive draw :=
 | DRandint (lo hi r : Z)                    (* random.randint(lo, hi) = r *)
 | DRandrange (lo hi r : Z)                  (* random.randrange(lo, hi) = r *)
 | DChoice (n i : Z)                         (* random.choice(seq), len(seq) = n, element seq[i] *)
-| DChoiceT (n : Z) (t : ty)                 (* random.choice(list(set of types)): element t *)
 | DEph (name : N) (v : Z).                  (* ephemeral generator call: value v *)
 
 Definition M (A : Type) := list draw -> res (A * list draw).
@@ -91,17 +90,6 @@ Definition d_choice {A} (l : list A) : M A := fun ds =>
         if (n =? zlen l) && (0 <=? i) then
           match nth_error l (Z.to_nat i) with Some x => Ok (x, rest) | None => Err EDraw end
         else Err EDraw
-    | _ => Err EDraw
-    end
-  end.
-(* choice among the elements of a Python set of types: iteration order unspecified, so any
-   member may come out; the count must match *)
-Definition d_choice_ty (l : list ty) : M ty := fun ds =>
-  match l with
-  | [] => Err EEmpty
-  | _ =>
-    match ds with
-    | DChoiceT n t :: rest => if (n =? zlen l) && mem_ty t l then Ok (t, rest) else Err EDraw
     | _ => Err EDraw
     end
   end.
@@ -258,7 +246,7 @@ Fixpoint dedup (l : list ty) : list ty :=
   end.
 Definition type_keys (keep : node -> bool) (l : list node) : list ty :=
   dedup (map nret (filter keep (tl l))).
-(* set(types1.keys()).intersection(set(types2.keys())) as a duplicate-free list *)
+(* [type_ for type_ in types1 if type_ in types2]: keys of types1 in order of first appearance *)
 Definition common_types (keep1 keep2 : node -> bool) (l1 l2 : list node) : list ty :=
   filter (fun t => mem_ty t (type_keys keep2 l2)) (type_keys keep1 l1).
 
@@ -281,7 +269,7 @@ Definition cx_one_point (l1 l2 : list node) : M (list node * list node) :=
   | root :: _ =>
     if N.eqb (nret root) tobj then
       (* "Not STGP optimization" *)
-      t <- d_choice_ty [tobj] ;;
+      t <- d_choice [tobj] ;;
       i1 <- d_choice (seq 1 (length l1 - 1)) ;;
       i2 <- d_choice (seq 1 (length l2 - 1)) ;;
       swap_subtrees l1 l2 i1 i2
@@ -290,7 +278,7 @@ Definition cx_one_point (l1 l2 : list node) : M (list node * list node) :=
       match commons with
       | [] => ret (l1, l2)
       | _ =>
-        t <- d_choice_ty commons ;;
+        t <- d_choice commons ;;
         i1 <- d_choice (idx_of_type all_nodes l1 t) ;;
         i2 <- d_choice (idx_of_type all_nodes l2 t) ;;
         swap_subtrees l1 l2 i1 i2
@@ -310,7 +298,7 @@ Definition cx_leaf_biased (pn : Z) (pd : positive) (l1 l2 : list node) : M (list
   match commons with
   | [] => ret (l1, l2)
   | _ =>
-    t <- d_choice_ty commons ;;
+    t <- d_choice commons ;;
     i1 <- d_choice (idx_of_type op1 l1 t) ;;
     i2 <- d_choice (idx_of_type op2 l2 t) ;;
     swap_subtrees l1 l2 i1 i2
